@@ -300,6 +300,10 @@ fn ledger_scenarios(tier: Tier, extra_probes: &dyn Fn(&Cfg, &Menu) -> Vec<Act>) 
         menu.modifies = fee_account_swap(&cfg);
         let mut p = extra_probes(&cfg, &menu);
         p.extend(probes::match_respell(&alphabet_l(&cfg, &menu)));
+        if !menu.quotes.is_empty() {
+            // several quote denominations: bids whose fee coin is off (in particular: names the other quote)
+            p.extend(probes::fee_creates(&cfg, &menu));
+        }
         v.push(scen(name, cfg, menu, p));
     };
     mk("B21/P1/F1/R0", Cfg::new(0, 2, ("0.25", "0.25"), "R0"), menu_p1(2, 1), &mut v);
@@ -519,6 +523,7 @@ pub fn plan(prop: &str, tier: Tier) -> Plan {
             mk("B11/P1/F1/rrr", with_markers(Cfg::new(0, 2, ("0.25", "0.25"), "R0"), "rrr"), small(menu_p1(1, 1)), &mut v);
             mk("B11/base-also-convertible", overlap(Cfg::new(0, 2, ("0.25", "0.25"), "R0")), small(menu_p1(1, 1)), &mut v);
             mk("B11/P1/F1/attrs1", with_attrs(Cfg::new(0, 2, ("0.25", "0.25"), "R0"), &["kyc"], &["kyc"]), small(menu_p1(1, 1)), &mut v);
+            mk("B11/multi-denom", multi(Cfg::new(0, 2, ("0.25", "0.25"), "R0")), small(menu_multi(1, 1)), &mut v);
             mk("B11/P1/F1/attrs-ask-only", with_attrs(Cfg::new(0, 2, ("0.25", "0.25"), "R0"), &["kyc"], &[]), small(menu_p1(1, 1)), &mut v);
             mk("B11/P1/F1/attrs-bid-only", with_attrs(Cfg::new(0, 2, ("0.25", "0.25"), "R0"), &[], &["kyc"]), small(menu_p1(1, 1)), &mut v);
             mk("B11/P1/F1/attrs2", with_attrs(Cfg::new(0, 2, ("0.25", "0.25"), "R0"), &["kyc", "acc"], &["acc", "kyc"]), small(menu_p1(1, 1)), &mut v);
